@@ -67,10 +67,42 @@ def one_case(args):
     # planted cross-link situations (stratified): 1 = more than one reader batch (> 100 packets) with an unknown system id on non-first packets, one of them
     # at a global index that is a multiple of the batch size; 2 = unreadable (over-padded) payloads on several links right after a page that ended in the middle of a frame
     plant = case % 3
+    # scale layouts (every 8th case): "gap" = one link is silent for more than 3600 packets of another link in the middle of one of its HBFs;
+    # "fat" = more than 100 consecutive packets of one link carry ~9 kB each (close to 1 MB in one reader batch) between the two halves of another link
+    scale = {7: "gap", 15: "fat"}.get(case % 16)
     gkw = dict(hbfs=rng.choice([12, 20]), max_pages=2) if plant == 1 else dict(hbfs=rng.choice([3, 4]), p_split=0.6, max_pages=4) if plant == 2 else dict(hbfs=rng.choice([2, 3]))
-    s = gen.generate(rng.getrandbits(40), n_links=rng.choice([2, 3, 4, 6]),
-                     shared_link_ids=(mode == "all_its_stave" and rng.random() < 0.5), merge=rng.choice(["roundrobin", "random", "hbf", "contiguous"]), **gkw)
-    nm = rng.choice([0, 1, 2, 4, 10])
+    if scale:
+        plant = 0
+        gkw = dict(hbfs=1900, max_pages=2, hits="none") if scale == "gap" else dict(hbfs=120, max_pages=2, hits="few")
+    s = gen.generate(rng.getrandbits(40), n_links=2 if scale else rng.choice([2, 3, 4, 6]),
+                     shared_link_ids=(mode == "all_its_stave" and rng.random() < 0.5 and not scale), merge=rng.choice(["roundrobin", "random", "hbf", "contiguous"]), **gkw)
+    if scale:
+        A, B = s.pkts[0], s.pkts[1]
+        # link 0 keeps a few whole HBFs only
+        k = next((i for i in range(40, len(A)) if A[i - 1].f["stop_bit"] == 1), len(A))
+        del A[k:]
+        j = next((i for i in range(3, len(A) - 1) if A[i].f["stop_bit"] == 0), None)      # a page that is followed by more pages of the same HBF
+        if j is None:
+            return out
+        for q in A[j + 1:][-6:]:
+            q.f["bc"] = 0xFFF                 # findings on link 0 late in the stream
+        if scale == "fat":
+            import its as _its
+            d_any = next((w for q in B for kd, w in q.words if kd == "DATA"), None)
+            if d_any is None:
+                return out
+            for q in B[10:170]:
+                # (pages without data words get them too: not legal there, but the same in every layout - the comparison is relational)
+                d = next((w for kd, w in q.words if kd == "DATA"), d_any)
+                slot = 16 if s.fmt == 0 else 10
+                room = (9300 - len(q.words) * slot) // slot
+                at = next((i for i, (kd, w) in enumerate(q.words) if kd == "DATA"), max(0, len(q.words) - 1))
+                q.words[at:at] = [["DATA", d] for _ in range(max(0, room))]
+            gap_len = len(B)
+        else:
+            gap_len = 3700
+        s.order = [(0, i) for i in range(j + 1)] + [(1, i) for i in range(min(gap_len, len(B)))] + [(0, i) for i in range(j + 1, len(A))] + [(1, i) for i in range(min(gap_len, len(B)), len(B))]
+    nm = rng.choice([0, 1, 2, 4, 10]) if not scale else rng.choice([0, 1])
     muts = []
     for _ in range(nm):
         m = "noop"
@@ -233,7 +265,7 @@ def one_case(args):
         v = same(l, (got or {}).get(l, []), "in the in-process sequential pass through one validator")
         if v:
             return v
-    out["key"] = (mode, len(s.links), nm, out["nontrivial"] > 0, plant)
+    out["key"] = (mode, len(s.links), nm, out["nontrivial"] > 0, plant, scale)
     return out
 
 
@@ -259,7 +291,8 @@ def run(res):
     if comp and nont < 0.2 * comp:
         res.inconclusive.append("only %d of %d link comparisons involved a link with errors" % (nont, comp))
     res.rule = ("multi-link G-conf streams with 0..10 structure-aware mutations (identifiers of links untouched) x {all, all its, all its-stave, sanity its}, a third each with planted cross-link situations (unknown system id on non-first packets incl. global index 100k in streams "
-                "of > 100 packets; over-padded payloads on several links right after a split frame); per-link lists normalised to "
+                "of > 100 packets; over-padded payloads on several links right after a split frame) and, every 8th case, a scale layout (a link silent for > 3600 packets of another link inside one of its HBFs; "
+                "> 100 consecutive packets of ~9 kB between the halves of another link); per-link lists normalised to "
                 "(packet index in link, delta) compared between full run, 2 re-merges, extracted file, filters, in-process pass; non-trivial = stream with >= 1 compared link that has errors")
     res.min_nontrivial = 12 if res.tier == "quick" else 300
     res.assumptions = ["an extracted / filtered stream is only comparable if its first RDH0 passes the start-up gate (else skipped, the in-process pass still covers the link)",
